@@ -103,12 +103,90 @@ mod h {
     typed_case!(t_ok, sv::TD_REPLY_ID, 500, false, 3);
     typed_case!(t_json_bad, sv::TD_REPLY_ID, 500, false, 4);
     typed_case!(t_json_range, sv::TD_REPLY_ID, 500, false, 5);
+    // mandatory typed mode whose parameter type is spelled Option<_>: the MODE decides, not the type
+    typed_case!(y_absent, sv::TD_OTY_REPLY_ID, 515, false, 0);
+    typed_case!(y_inner_absent, sv::TD_OTY_REPLY_ID, 515, false, 2);
     typed_case!(o_absent, sv::TD_OPT_REPLY_ID, 510, true, 0);
     typed_case!(o_env_bad, sv::TD_OPT_REPLY_ID, 510, true, 1);
     typed_case!(o_inner_absent, sv::TD_OPT_REPLY_ID, 510, true, 2);
     typed_case!(o_ok, sv::TD_OPT_REPLY_ID, 510, true, 3);
     typed_case!(o_json_bad, sv::TD_OPT_REPLY_ID, 510, true, 4);
     typed_case!(o_json_range, sv::TD_OPT_REPLY_ID, 510, true, 5);
+
+    /// Typed payload (C07 / C08, dispatch side, with from_json replaced by the registered serde-doc).
+    /// sel 0: handler covers the outcome, payload document well-formed  -> handler runs with the value
+    ///     1: handler covers the outcome, payload document malformed    -> error, handler NOT invoked
+    ///     2: the outcome is NOT covered (success-only name, failed sub-message; error-only name,
+    ///        successful sub-message): as if no reply had been requested -- the payload is not even
+    ///        looked at, whatever it holds
+    macro_rules! payload_case {
+        ($name:ident, $id:expr, $echo:literal, $covers_ok:literal, $sel:literal) => {
+            #[kani::proof]
+            #[kani::unwind(12)]
+            #[kani::stub(std::backtrace::Backtrace::capture, bt_disabled)]
+            #[kani::stub(alloc::fmt::format, fmt_stub)]
+            fn $name() {
+                let i = any_in();
+                let gas: u64 = kani::any();
+                let d: u8 = kani::any();
+                let junk: u64 = kani::any();
+                let eb: u8 = kani::any();
+                kani::assume(eb < 128);
+                match $sel {
+                    0 => reg_inner(["v", "zz"], [d as u64, junk]),
+                    _ => reg_inner(["w", "zz"], [d as u64, junk]),
+                }
+                let ok_outcome = if $sel == 2 { !$covers_ok } else { $covers_ok };
+                #[allow(deprecated)]
+                let msg = Reply {
+                    id: $id,
+                    payload: Binary::from(vec![7u8]),
+                    gas_used: gas,
+                    result: if ok_outcome {
+                        SubMsgResult::Ok(SubMsgResponse { events: Vec::new(), data: None, msg_responses: Vec::new() })
+                    } else {
+                        SubMsgResult::Err(support::env::one_char(eb))
+                    },
+                };
+                let mut w = i.world();
+                let res = sv::dispatch_reply(w.deps_mut(), i.env(), msg, Rd::new());
+                match $sel {
+                    0 => {
+                        check_call(&i, &w, $echo, [gas, 1 + d as u64, 0, 0], false, true);
+                        assert!(unsafe { FROM_JSON_CALLS } == 1, "the payload was decoded once");
+                    }
+                    1 => {
+                        check_no_call(&w);
+                        assert!(res.is_err(), "an undecodable payload is an error");
+                    }
+                    _ => {
+                        check_no_call(&w);
+                        if ok_outcome {
+                            match &res {
+                                Ok(resp) => assert!(resp.data.is_none() && resp.events.is_empty() && resp.messages.is_empty(), "uncovered success: passed through"),
+                                Err(_) => assert!(false, "uncovered success is answered as if no reply had been requested"),
+                            }
+                        } else {
+                            match &res {
+                                Err(RdErr::Std(sylvia::cw_std::StdError::GenericErr { msg, .. })) => {
+                                    assert!(support::sym::str_eq(msg, &support::env::one_char(eb)), "uncovered failure is answered with that error")
+                                }
+                                _ => assert!(false, "uncovered failure is answered with that error"),
+                            }
+                        }
+                    }
+                }
+                kani::cover!(true, "cell reached");
+                core::mem::forget(res);
+            }
+        };
+    }
+    payload_case!(p_ok_good, sv::TP_OK_REPLY_ID, 520, true, 0);
+    payload_case!(p_ok_bad, sv::TP_OK_REPLY_ID, 520, true, 1);
+    payload_case!(p_ok_uncovered, sv::TP_OK_REPLY_ID, 520, true, 2);
+    payload_case!(p_err_good, sv::TP_ERR_REPLY_ID, 530, false, 0);
+    payload_case!(p_err_bad, sv::TP_ERR_REPLY_ID, 530, false, 1);
+    payload_case!(p_err_uncovered, sv::TP_ERR_REPLY_ID, 530, false, 2);
 
     // @PLAYBACK h@
 }
